@@ -6,9 +6,12 @@
    socket constants) are NOT written here: they come from Gen/C11_Tables.v, dumped from the code.
 
    Representation choices (tied to the code by the correspondence run only):
-   * /proc/net/* files are read in text mode; a line is modelled as its bytes.  str.split() and
-     universal-newline reading differ from their bytes counterparts only on '\r', \x1c-\x1f and the
-     non-ASCII Unicode white space; files containing one of those are [OutOfModel] ([text_safe]).
+   * /proc/net/* files are read in text mode; a line is modelled as its bytes.  Universal-newline reading
+     (tcp/udp files; the unix file before fix 0e98900) is [univ_nl]; since 0e98900 the unix file is opened with
+     newline="\n": only LF ends a record.  str.split() differs from bytes.split() only on \x1c-\x1f and the
+     non-ASCII Unicode white space ([str_safe]): a tcp/udp file holding one is [OutOfModel]; of a unix line only
+     the part that is tokenised (everything before the socket name, [unix_head]) must be free of them -- the
+     name itself may hold any byte.
    * a defaultdict(list) filled by append is the list of (key, value) pairs in append order;
      d[k] = the values appended under k, "k in d" = that list is non-empty.
    * dict.update over the per-process dicts = the LAST per-process dict that has the key wins.
@@ -20,12 +23,13 @@
    Two switches ([variant]) distinguish the code as it is now ([current], both true) from the code before two
    repairs ([before_repairs], both false; kept so that the old failures stay stated and replayable):
      v_merge : get_all_inodes keeps the (pid, fd) pairs of every process      (fix d36edd1; before: dict.update)
-     v_exact : the UNIX name is what follows the single blank after the inode (fix 9cf9292; before: split(None, 7)[7]) *)
+     v_exact : the UNIX name is what follows the single blank after the inode (fix 9cf9292; before: split(None, 7)[7])
+     v_lf    : /proc/net/unix is opened with newline="\n"                      (fix 0e98900; before: universal newlines) *)
 From PV Require Export Base.Dec Gen.C11_Tables.
 
-Record variant := { v_merge : bool; v_exact : bool }.
-Definition current : variant := {| v_merge := true; v_exact := true |}.
-Definition before_repairs : variant := {| v_merge := false; v_exact := false |}.
+Record variant := { v_merge : bool; v_exact : bool; v_lf : bool }.
+Definition current : variant := {| v_merge := true; v_exact := true; v_lf := true |}.
+Definition before_repairs : variant := {| v_merge := false; v_exact := false; v_lf := false |}.
 
 (* ------------------------------------------------------------ text-mode guard *)
 Definition uni_ws3 (c d e : Z) : bool :=
@@ -35,16 +39,32 @@ Definition uni_ws3 (c d e : Z) : bool :=
   || ((c =? 227) && (d =? 128) && (e =? 128)).                               (* U+3000 *)
 Definition uni_ws2 (c d : Z) : bool := (c =? 194) && ((d =? 133) || (d =? 160)).   (* U+0085 U+00A0 *)
 
-Fixpoint text_safe (l : bytes) : bool :=
+(* no character that str.split() treats as white space and bytes.split() does not *)
+Fixpoint str_safe (l : bytes) : bool :=
   match l with
   | [] => true
   | c :: r =>
-    negb (c =? 13) && negb ((28 <=? c) && (c <=? 31))
+    negb ((28 <=? c) && (c <=? 31))
     && negb (match r with
              | d :: r' => uni_ws2 c d || match r' with e :: _ => uni_ws3 c d e | [] => false end
              | [] => false
              end)
-    && text_safe r
+    && str_safe r
+  end.
+(* ... and no carriage return either: universal-newline reading changes nothing *)
+Definition text_safe (l : bytes) : bool := negb (contains 13 l) && str_safe l.
+
+(* open(..., newline=None): "\r\n" and "\r" are read as "\n" *)
+Fixpoint univ_nl (l : bytes) : bytes :=
+  match l with
+  | [] => []
+  | c :: r =>
+    if c =? 13 then
+      10 :: match r with
+            | d :: r' => if d =? 10 then univ_nl r' else univ_nl r
+            | [] => []
+            end
+    else c :: univ_nl r
   end.
 
 (* ------------------------------------------------------------ readlink() wrapper *)
@@ -254,7 +274,8 @@ Definition process_inet (le : bool) (o : ipv6_oracle) (content : option bytes) (
   match content with
   | None => if is6 then Val [] else OutOfModel
   | Some c =>
-    if text_safe c then inet_lines le o family type lk filt (tl (lines_keep c)) else OutOfModel
+    let c' := univ_nl c in                                   (* open_text(file): universal newlines *)
+    if str_safe c' then inet_lines le o family type lk filt (tl (lines_keep c')) else OutOfModel
   end.
 
 (* ------------------------------------------------------------ process_unix *)
@@ -314,11 +335,19 @@ Fixpoint unix_lines (v : variant) (family : Z) (lk : imap) (filt : option Z) (ls
     Val (x ++ xs)
   end.
 
+(* the part of a record that is tokenised: up to and including the blank that precedes the name *)
+Definition unix_head (line : bytes) : bytes :=
+  firstn (length line - length (after_space (rest_after 6 line))) line.
+Definition line_guard (v : variant) (line : bytes) : bool :=
+  str_safe (if v_exact v then unix_head line else line).
+
 Definition process_unix (v : variant) (content : option bytes) (family : Z) (lk : imap) (filt : option Z)
   : outcome (list row) :=
   match content with
   | None => OutOfModel
-  | Some c => if text_safe c then unix_lines v family lk filt (tl (lines_keep c)) else OutOfModel
+  | Some c =>
+    let ls := tl (lines_keep (if v_lf v then c else univ_nl c)) in     (* open_text(file, newline="\n") *)
+    if forallb (line_guard v) ls then unix_lines v family lk filt ls else OutOfModel
   end.
 
 (* ------------------------------------------------------------ retrieve *)
